@@ -177,6 +177,10 @@ func parseString(path, content string, includeDirs []string) (*Thrift, error) {
 
 func (p *parser) parse() (err error) {
 	root := p.AST()
+	if root == nil && p.Buffer == "" {
+		// the empty document matches the grammar (Header* Definition*); nothing to walk
+		return nil
+	}
 	if root == nil || root.pegRule != ruleDocument {
 		return errors.New("not document")
 	}
